@@ -17,7 +17,7 @@ OBLIGATIONS = ['PGA.Thermo.' + t for t in [
     'C06_range_is_intersection', 'C06_range_sup_inf', 'C06_range_none_iff', 'C06_range_order_independent',
     'C06_empty_intersection_rejected', 'C06_table_outside_errors', 'C06_nonpositive_T_rejected',
     'C06_correlation_outside_errors', 'C06_correlation_outside_signalled', 'C06_estimate_outside_signalled',
-    'C06_table_inside_value', 'C06_estimate_inside_value', 'C06_tab_shipped_ranges', 'C06_tab_shipped_ranges_spec',
+    'C06_table_inside_value', 'C06_estimate_inside_value', 'C06_no_internal_error', 'C06_tab_shipped_ranges', 'C06_tab_shipped_ranges_spec',
     'F27_unsignalled_before_repair']]
 RULE = ('cases = (correlation or estimate, temperature, property) triples. Correlations: ThermochemRawData / Incomplete / Group, with '
         'and without Cp data (tables of 1..8 points), with / without reference values, range present / absent / degenerate, T_ref '
@@ -509,7 +509,9 @@ def search(ctx):
 
 
 def replay(ctx, rec):
-    inp = rec.get('input', rec)
+    inp = C5.replay_input(rec)
+    if inp is None:
+        return True
     before = len(ctx.violations)
     batch = []
     if 'ranges' in inp:
